@@ -19,6 +19,21 @@ CHECKS['C01'] = dict(text='On every accepted symbolic path of t_layout (same bou
              'the reference table.',
              note='bounded as C03; repr(C) layout rule and scalar alignment table (windows-msvc x86/x86_64) are the trusted reference; token emission of the struct not covered',
              design='4/C01')
+CHECKS['C05'] = dict(text='Symbolic execution of function::build / type_definition::build for one impl function over every receiver, 0..3 '
+             'parameters of integer/pointer/unresolvable type, every return type incl. unresolvable, every calling-convention value and a '
+             'symbolic address over the whole isize range: on accepted paths z3 proves the recorded function has body Address{A} with A the '
+             'declared value, the declared receiver/parameters/return type in order; on rejected paths it proves the declaration was not acceptable.',
+             note='semantic stage only: the emitted wrapper text and its run-time call through the absolute address are not decided (no engine here can execute a call to an integer address); <= 3 parameters',
+             design='4/C05')
+CHECKS['C08'] = dict(text='Symbolic execution of enum_definition::build for 1..3 (thorough 5) variants, each explicit value symbolic over the whole isize range, '
+             'every base type and default-marker placement: accepted paths must have discriminants = explicit value or predecessor+1, size/alignment '
+             'of the base type, default index = marked variant, defaultable consistent; rejected paths must be invalid descriptions; no panics.',
+             note='variants bounded (statement says up to 32); emission (`= v as _`, repr, #[default]) not covered; one open known finding (out-of-range values accepted, required by the repository\'s own test)',
+             design='4/C08')
+CHECKS['C12'] = dict(text='The templates are re-run with every numeric unconstrained (64-bit, negatives included); any path ending in a panic or '
+             'exhausting the step budget is reported with a solver-produced description that is replayed on the native build.',
+             note='semantic layer only (parser, file I/O outside); field/variant counts bounded; a path whose feasibility the solver cannot decide within its time limit is reported as inconclusive, not as pass',
+             design='4/C12')
 NA = {}
 ALL = [json.loads(l)['id'] for l in open('properties.jsonl')]
 for p in ALL:
